@@ -29,6 +29,8 @@
 //!   checkpoint file, fresh manager of the same capacity, `run_cycle`.
 //! * `reset()`: "initial state": empty, same capacity.
 
+mod container;
+
 use cascette_client_storage::lru::LruManager;
 use proptest::prelude::*;
 use serde::{Deserialize, Serialize};
@@ -75,6 +77,10 @@ enum Op {
         fresh: bool,
         limit: u64,
         avg: u64,
+        /// `fresh` only: leave the checkpoint files of older generations in the directory (the
+        /// one written just before has the highest generation and is the one to load)
+        #[serde(default)]
+        keep_older: bool,
     },
     Reset,
 }
@@ -187,6 +193,27 @@ impl Drop for CaseDir {
 }
 
 /// Remove every `*.lru` file of `dir` except `keep`.
+fn lru_generation(p: &Path) -> Option<u64> {
+    if p.extension().and_then(|x| x.to_str()) != Some("lru") {
+        return None;
+    }
+    u64::from_str_radix(p.file_stem()?.to_str()?, 16).ok()
+}
+
+fn remove_newer_lru_files(dir: &Path, generation: u64) -> std::io::Result<()> {
+    for e in std::fs::read_dir(dir)? {
+        let p = e?.path();
+        if p.extension().and_then(|x| x.to_str()) == Some("lru") && lru_generation(&p).is_none_or(|g| g > generation) {
+            std::fs::remove_file(&p)?;
+        }
+    }
+    Ok(())
+}
+
+fn older_lru_files(dir: &Path, generation: u64) -> usize {
+    std::fs::read_dir(dir).map(|rd| rd.flatten().filter(|e| lru_generation(&e.path()).is_some_and(|g| g < generation)).count()).unwrap_or(0)
+}
+
 fn remove_lru_files(dir: &Path, keep: Option<&Path>) -> std::io::Result<()> {
     for e in std::fs::read_dir(dir)? {
         let p = e?.path();
@@ -346,6 +373,7 @@ struct Flags {
     zero_touched: bool,
     zero_reloaded: bool,
     cycle_evicted: bool,
+    cycle_with_older_files: bool,
     refill_after_evict: bool,
     reset_nonempty: bool,
     remove_hit: bool,
@@ -597,7 +625,7 @@ fn check_inner(c: &Case, known: &Known, replay: bool) -> Verdict {
                     break 'ops;
                 }
             }
-            Op::RunCycle { fresh, limit, avg } => {
+            Op::RunCycle { fresh, limit, avg, keep_older } => {
                 opname = if fresh { "run_cycle_fresh" } else { "run_cycle" };
                 let avg = avg.max(1);
                 if fresh {
@@ -606,7 +634,15 @@ fn check_inner(c: &Case, known: &Known, replay: bool) -> Verdict {
                         break 'ops;
                     }
                     let keep = cascette_client_storage::lru::lru_file::lru_file_path(&dir_path, mgr.generation());
-                    if let Err(e) = remove_lru_files(&dir_path, Some(&keep)) {
+                    let cleaned = if keep_older {
+                        // only files of a higher generation than the checkpoint just written go (a
+                        // reset manager starts counting again: such files are leftovers of its past)
+                        f.cycle_with_older_files = older_lru_files(&dir_path, mgr.generation()) > 0;
+                        remove_newer_lru_files(&dir_path, mgr.generation())
+                    } else {
+                        remove_lru_files(&dir_path, Some(&keep))
+                    };
+                    if let Err(e) = cleaned {
                         outcome = Some(Stop::Infra(format!("cannot clean case directory: {e}")));
                         break 'ops;
                     }
@@ -702,6 +738,7 @@ fn check_inner(c: &Case, known: &Known, replay: bool) -> Verdict {
         .class_if(f.zero_touched, "zero-key-touched")
         .class_if(f.zero_reloaded, "zero-key-present-at-reload")
         .class_if(f.cycle_evicted, "run-cycle-evicted")
+        .class_if(f.cycle_with_older_files, "run-cycle-fresh-beside-older-checkpoint-files")
         .class_if(f.reset_nonempty, "reset-nonempty")
         .class_if(stopped_by_known, "stopped-at-known-finding")
         .class_if(executed >= 50, "executed>=50-ops")
@@ -805,11 +842,12 @@ fn mem_alphabet() -> Vec<Op> {
 fn persist_alphabet() -> Vec<Op> {
     vec![
         Op::Reload,
-        Op::RunCycle { fresh: true, limit: 0, avg: 100 },
-        Op::RunCycle { fresh: true, limit: 100, avg: 100 },
-        Op::RunCycle { fresh: true, limit: 250, avg: 100 },
-        Op::RunCycle { fresh: false, limit: 100, avg: 100 },
-        Op::RunCycle { fresh: false, limit: 250, avg: 100 },
+        Op::RunCycle { fresh: true, limit: 0, avg: 100, keep_older: false },
+        Op::RunCycle { fresh: true, limit: 0, avg: 100, keep_older: true },
+        Op::RunCycle { fresh: true, limit: 100, avg: 100, keep_older: false },
+        Op::RunCycle { fresh: true, limit: 250, avg: 100, keep_older: false },
+        Op::RunCycle { fresh: false, limit: 100, avg: 100, keep_older: false },
+        Op::RunCycle { fresh: false, limit: 250, avg: 100, keep_older: false },
     ]
 }
 
@@ -903,7 +941,7 @@ fn resolve(r: &RawOp, cap: u32, pool: u16) -> Op {
         RawOp::Reload => Op::Reload,
         RawOp::RunCycle { fresh, no_limit, avg_sel, units, off } => {
             let (limit, avg) = bytes_arg(avg_sel, units, off, cap as usize + 1);
-            Op::RunCycle { fresh, limit: if no_limit { 0 } else { limit }, avg }
+            Op::RunCycle { fresh, limit: if no_limit { 0 } else { limit }, avg, keep_older: fresh && off & 1 == 1 }
         }
         RawOp::Reset => Op::Reset,
     }
@@ -1159,6 +1197,9 @@ fn main() {
             .shrink_iters(4000),
     );
     drain_infra(&mut ck);
+
+    // 3. the manager as DynamicContainer drives it
+    ck.run(Section::pbt("container-lru", tier.pick(1_500, 60_000), container::strategy, container::check).shards(16).shrink_iters(300));
 
     drop(base);
     ck.finish();
